@@ -284,7 +284,7 @@ class DictReader:
             msg = ("Cannot parse odML document with format version '%s'. \n"
                    "\tUse the 'VersionConverter' from 'odml.tools.converters' "
                    "to import previous odML formats."
-                   % self.parsed_doc.get('odml-version'))
+                   % (self.parsed_doc.get('odml-version'),))
             raise InvalidVersionException(msg)
 
         self.parsed_doc = self.parsed_doc['Document']
